@@ -32,7 +32,9 @@ from ..att.ledgergen import LedgerGen, pubkeys_variants, CHAIN_VARIANTS as L_CHA
 from ..att.sgxgen import SgxGen, CHAIN_VARIANTS as S_CHAINS
 
 # -- menus (name -> value); the quick tier takes the names listed in Q_* ---------------------
-EDGE_BYTES = [0x30, 0x39, 0x3a, 0x0a, 0x00, 0x07, 0xff]
+EDGE_BYTES = [0x30, 0x39, 0x3a, 0x0a, 0x00, 0x07, 0xff, 0x2e]
+# two-byte beginnings that could CONTINUE a textual header's own grammar ('.7', '.0', '::', '5.')
+EDGE_PAIRS = ["2e37", "2e30", "3a3a", "352e"]
 UI_VARIANTS = {
     # name: (header, attested key, length change, class) ; class: ok | foreign | open
     "exact": (L.UI_HEADER, "own", 0, "ok"),
@@ -48,10 +50,11 @@ UI_VARIANTS = {
     "short-1": (L.UI_HEADER, "own", -1, "open"),
     "long+1": (L.UI_HEADER, "own", 1, "open"),
 }
-# "edge-XX": documented header, operator's key, UD value starting with byte XX and iteration
-# ending in byte XX (the bytes next to the header / at the end of the message)
-for _b in EDGE_BYTES:
-    UI_VARIANTS["edge-%02x" % _b] = (L.UI_HEADER, "own", 0, "ok")
+# "edge-XX[YY]": documented header, operator's key, UD value starting with the byte(s) and
+# iteration ending in them (the bytes next to the header / at the end of the message)
+UI_EDGES = ["%02x" % _b for _b in EDGE_BYTES] + EDGE_PAIRS
+for _e in UI_EDGES:
+    UI_VARIANTS["edge-" + _e] = (L.UI_HEADER, "own", 0, "ok")
 T_UI = ["exact", "other-key", "foreign-prefix", "foreign-lowercase", "foreign-noversion",
         "version-5.3", "version-6.0", "version-5x4"]
 Q_UI = ["exact", "other-key", "foreign-prefix", "foreign-lowercase", "version-5.3", "version-6.0"]
@@ -94,7 +97,7 @@ Q_S_PUBKEYS = ["same", "mixed-shuffled", "one-different", "one-missing"]
 T_S_PUBKEYS = Q_S_PUBKEYS + ["one-extra", "renamed-same-order", "paths-swapped", "key-not-on-curve",
                              "empty-object", "no-file"]
 L_ROOTS = ["right", "wrong", "malformed-hex", "none", "right-compressed", "malformed-point",
-           "empty", "device-key"]
+           "empty", "device-key", "right-uppercase"]
 Q_L_ROOTS = L_ROOTS[:4]
 T_L_ROOTS = L_ROOTS[:6]
 S_ROOTS = ["right", "wrong", "garbage-pem", "none", "ca-as-root", "empty-file", "url",
@@ -134,7 +137,9 @@ class C08(Check):
             "foreign, other version} x length {exact,-1,+1 with last byte 0a/'7'/ff,+2 ending 0a,"
             "+32} x platform bytes x public-keys file {same keys in other order/encoding, key "
             "different, missing, extra, renamed paths, malformed} x root of trust {right, wrong, "
-            "malformed, default}; every printed field also with first byte 00, first nibble 0, all "
+            "malformed, default}; key sets with paths that sort differently as strings and as "
+            "numbers; SGX chains whose validity starts/ends within hours of now under process time "
+            "zones UTC, UTC-3, UTC+5:30; every printed field also with first byte 00, first nibble 0, all "
             "zero, all ff; boundary bytes (0,9,:,newline,00,07,ff) right after each textual "
             "header and at the end of each message x lengths x keys x root; all really signed "
             "(secp256k1 via ecdsa, P-256/X.509 via cryptography); Ledger and SGX commands; all calls "
@@ -192,7 +197,9 @@ class C08(Check):
         self.lgs = {p: LedgerGen(Rng("c08-ledger"), p) for p in L.VALUE_PROFILES}
         self.sgs = {p: SgxGen(Rng("c08-sgx"), profile=p) for p in L.VALUE_PROFILES}
         self.lg, self.sg = self.lgs["seeded"], self.sgs["seeded"]
-        self.keysets = self.lg.edge_keysets(Rng("c08-keysets"), EDGE_BYTES)
+        self.keysets = self.lg.edge_keysets(
+            Rng("c08-keysets"), EDGE_BYTES,
+            {"kh-first-2e3x": lambda dg: dg[0] == 0x2e and 0x30 <= dg[1] <= 0x39})
         self.pkvs = {"base": pubkeys_variants(self.lg)}
         self.m_lpk = T_PUBKEYS if t else Q_PUBKEYS
         self.m_spk = T_S_PUBKEYS if t else Q_S_PUBKEYS
@@ -227,6 +234,7 @@ class C08(Check):
         lg = self.lg
         self.lroots = {
             "right": (lg.issuer.pub65.hex(), True), "right-compressed": (lg.issuer.pub33.hex(), True),
+            "right-uppercase": (lg.issuer.pub65.hex().upper(), True),
             "wrong": (lg.other_root.pub65.hex(), False), "device-key": (lg.device.pub65.hex(), False),
             "malformed-hex": ("zz" + lg.issuer.pub65.hex()[2:], False),
             "malformed-point": ("04" + "11" * 64, False), "empty": ("", False), "none": (None, False),
@@ -238,7 +246,8 @@ class C08(Check):
 
     def pkv(self, keyset):
         if keyset not in self.pkvs:
-            self.pkvs[keyset] = pubkeys_variants(self.lg, self.keysets[keyset][0])
+            paths, wallet, _ = self.keysets[keyset]
+            self.pkvs[keyset] = pubkeys_variants(self.lg, wallet, paths)
         return self.pkvs[keyset]
 
     def keyinfo(self, v):
@@ -290,9 +299,11 @@ class C08(Check):
                 for h in self.m_sh["current"]:
                     cs.append({"kind": "sgx", "chain": ch, "targets": tg, "header": h})
         for ks in sorted(self.keysets):
-            for b in EDGE_BYTES:
-                cs.append({"kind": "edge", "plat": "ledger", "keyset": ks, "byte": b})
+            for e in UI_EDGES:
+                cs.append({"kind": "edge", "plat": "ledger", "keyset": ks, "edge": e})
             cs.append({"kind": "edge", "plat": "sgx", "keyset": ks})
+        for zone in seams.ZONES:
+            cs.append({"kind": "zones", "zone": zone})
         for prof in L.VALUE_PROFILES[1:]:
             cs.append({"kind": "values", "plat": "ledger", "values": prof})
             cs.append({"kind": "values", "plat": "sgx", "values": prof})
@@ -323,24 +334,34 @@ class C08(Check):
                         yield "sgx", {"chain": case["chain"], "targets": case["targets"],
                                       "signer": list(sv), "pubkeys": pk, "root": root}
         elif k == "edge" and case["plat"] == "ledger":
-            b = case["byte"]
             svs = self.signer_variants("ledger", self.m_elen, {"legacy": ["ok"], "current": ["ok"]},
                                        ["led"])
             for sv in svs:
-                for ts in ([None] if sv[0] == "legacy" else [None] + EDGE_BYTES):
+                # the timestamp's last byte varies with the standard key set only
+                tss = [None] + EDGE_BYTES if sv[0] == "current" and case["keyset"] == "base" else [None]
+                for ts in tss:
                     for pk in ("same", "one-different"):
                         for root in ("right", "wrong"):
                             yield "ledger", {"chain": "genuine", "targets": "both",
-                                             "ui": "edge-%02x" % b, "signer": list(sv),
+                                             "ui": "edge-" + case["edge"], "signer": list(sv),
                                              "pubkeys": pk, "root": root,
                                              "keyset": case["keyset"], "ts": ts}
+        elif k == "edge":
+            for sv in self.signer_variants("sgx", self.m_elen, {"current": ["ok"]}, ["sgx"]):
+                for ts in ([None] + EDGE_BYTES if case["keyset"] == "base" else [None]):
+                    for pk in ("same", "one-different"):
+                        for root in ("right", "wrong"):
+                            yield "sgx", {"chain": "genuine", "targets": "quote", "signer": list(sv),
+                                          "pubkeys": pk, "root": root, "keyset": case["keyset"],
+                                          "ts": ts}
         elif k == "values":
             # every printed field starts with 00 / a zero nibble / is all zero / all ff
             plat = case["plat"]
             own = "led" if plat == "ledger" else "sgx"
             for ks in sorted(self.keysets):
                 for fmt in (["legacy", "current"] if plat == "ledger" else ["current"]):
-                    for ui in (["exact", "edge-00", "edge-07"] if plat == "ledger" else ["-"]):
+                    for ui in (["exact", "edge-00", "edge-07", "edge-2e37"] if plat == "ledger"
+                               else ["-"]):
                         for ln in ("0", "+1:00"):
                             for pk in ("same", "one-different"):
                                 v = self.base_variant(plat)
@@ -374,7 +395,7 @@ class C08(Check):
         if dim == "root":
             return list(L_ROOTS if plat == "ledger" else S_ROOTS)
         if dim == "ui":
-            return list(self.m_ui) + ["edge-30", "edge-0a"]
+            return list(self.m_ui) + ["edge-30", "edge-0a", "edge-2e37"]
         fmts = ["legacy", "current"] if plat == "ledger" else ["current"]
         own = "led" if plat == "ledger" else "sgx"
         return [[f, "ok", ln, own if f == "current" else "-"] for f in fmts
@@ -397,6 +418,8 @@ class C08(Check):
                     break
             self.drop_paths(shared)
             self._built = {}
+        elif k == "zones":
+            self.run_zones(case["zone"], stats, vs)
         elif k == "pairs":
             plat, dim = case["plat"], case["dim"]
             vals = self.pair_values(plat, dim)
@@ -428,6 +451,78 @@ class C08(Check):
             vs.append(Violation("C08", "C08:%s:second-call-on-same-paths:%s:%s" % (plat, dim, suffix),
                                 {"kind": "pair", "plat": plat, "dim": dim, "a": a, "b": b}, None,
                                 observed, expected, clause))
+
+    def run_zones(self, zone, stats, vs):
+        """SGX verification in a process whose time zone is ``zone``, with certificates whose
+        validity begins / ends within a few hours of now: the verdict is that of UTC instants,
+        whatever the local wall clock reads.  The reference instant is the real present, so
+        that real and owned clocks agree to the second."""
+        import datetime
+        t0 = datetime.datetime.now(datetime.timezone.utc).replace(microsecond=0)
+        h = datetime.timedelta(hours=1)
+        sg = self.sg
+        hp = sg.h
+        windows = {  # name: (element, not_before, not_after, valid?)
+            "pck-expired-90min-ago": ("pck", t0 - 30 * 24 * h, t0 - 1.5 * h, False),
+            "pck-valid-2h-more": ("pck", t0 - 30 * 24 * h, t0 + 2 * h, True),
+            "pck-valid-in-1h": ("pck", t0 + h, t0 + 30 * 24 * h, False),
+            "pck-valid-since-1h": ("pck", t0 - h, t0 + 30 * 24 * h, True),
+            "ca-expired-90min-ago": ("ca", t0 - 30 * 24 * h, t0 - 1.5 * h, False),
+            "ca-valid-since-1h": ("ca", t0 - h, t0 + 2 * h, True),
+        }
+        msg = sg.message(keys_hash=self.lg.keys_hash)
+        saved = (S.FixedClock.current, dict(sg.certs))
+        try:
+            with seams.process_zone(zone):
+                S.FixedClock.current = t0
+                for name, (el, nb, na, valid) in windows.items():
+                    if el == "pck":
+                        sg.certs["pck"] = S.make_cert("Verif SGX PCK Certificate", hp.pck_key,
+                                                      "Verif SGX PCK Platform CA", hp.ca_key, 3,
+                                                      False, nb, na)
+                    else:
+                        sg.certs["ca"] = S.make_cert("Verif SGX PCK Platform CA", hp.ca_key,
+                                                     "Verif SGX Root CA", hp.root_key, 2, True,
+                                                     nb, na)
+                    cert, _ = sg.certificate("genuine", "quote", msg)
+                    sg.certs.update(saved[1])
+                    for via_main in (False, True):
+                        self.zone_call(zone, name, valid, cert, via_main, stats, vs)
+        finally:
+            S.FixedClock.current = saved[0]
+            sg.certs.clear()
+            sg.certs.update(saved[1])
+
+    def zone_call(self, zone, name, valid, cert, via_main, stats, vs):
+        stats.evaluations += 1
+        paths = self.fresh_paths()
+        put(paths["cert"], json.dumps(cert))
+        put(paths["pk"], self.pkv("base")["same"][0])
+        put(paths["root"], self.sroots["right"][0])
+        buf = io.StringIO()
+        outcome, text = "ok", ""
+        with contextlib.redirect_stdout(buf):
+            try:
+                if via_main:
+                    self.run_main("sgx", paths["cert"], paths["pk"], paths["root"])
+                else:
+                    self.VS.do_verify_attestation(options_for("sgx", paths["cert"], paths["pk"],
+                                                              paths["root"]))
+            except SystemExit as e:
+                if e.code not in (0, None):
+                    outcome = "err"
+            except BaseException as e:   # noqa
+                outcome, text = "err", "%s: %s" % (type(e).__name__, e)
+        self.drop_paths(paths)
+        stats.observe(("zone", zone, name, valid, outcome))
+        if (outcome == "ok") != valid:
+            vs.append(Violation(
+                "C08", "C08:sgx:time-zone:%s:%s" % ("refused-valid" if valid else "accepted-invalid",
+                                                   name.split("-")[0]),
+                {"kind": "zones", "zone": zone}, None,
+                {"zone": zone, "certificate": name, "outcome": outcome, "text": text[:300]},
+                {"outcome": "ok" if valid else "error"},
+                "the certificate chain is valid (at the present instant) for the chosen root"))
 
     def main_sample(self, plat):
         """genuine + every single departure from it, through adm_*.main()"""
@@ -479,16 +574,16 @@ class C08(Check):
         hdr, key, lenmod, ui_class = UI_VARIANTS[v["ui"]]
         ud = it = None
         if v["ui"].startswith("edge-"):
-            b = int(v["ui"][5:], 16)
-            ud = bytes([b]) + lg.ud_ui[1:]
-            it = (lg.iteration & 0xff00) | b
+            b = bytes.fromhex(v["ui"][5:])
+            ud = b + lg.ud_ui[len(b):]
+            it = int.from_bytes((lg.iteration.to_bytes(2, "big") + b)[-2:], "big")
         ui_msg = lg.ui_msg(hdr, key, lenmod, ud, it)
         fmt, hname, lname, plat = v["signer"]
         shdr, s_class = SIGNER_HEADERS[fmt][hname]
         ks = v.get("keyset", "base")
         lenmod, fill = LENGTHS[lname]
         sg_msg = lg.signer_msg(fmt, shdr, lenmod, PLATFORMS.get(plat, b"led"),
-                               self.keysets[ks][1], fill, self.timestamp_for(lg.timestamp, v.get("ts")))
+                               self.keysets[ks][2], fill, self.timestamp_for(lg.timestamp, v.get("ts")))
         name = ("L", v["chain"], v["targets"], v["ui"], fmt, hname, lname, plat, ks, v.get("ts"),
                 v.get("values"))
         if name not in self._built:
@@ -502,7 +597,7 @@ class C08(Check):
         shdr, s_class = SIGNER_HEADERS["current"][hname]
         ks = v.get("keyset", "base")
         lenmod, fill = LENGTHS[lname]
-        msg = sg.message(shdr, lenmod, PLATFORMS[plat], self.keysets[ks][1], fill,
+        msg = sg.message(shdr, lenmod, PLATFORMS[plat], self.keysets[ks][2], fill,
                          self.timestamp_for(sg.timestamp, v.get("ts")))
         hier = self.sroots[v["root"]][2]
         name = ("S", v["chain"], v["targets"], hname, lname, plat, ks, v.get("ts"), hier,
